@@ -37,6 +37,18 @@ pub fn group_op(g: &mut Gen, model: &Model, c: usize) -> Op {
             let n = t.partitions.len() as u32;
             let partition = if g.rng.chance(0.25) && n > 0 { Some(1 + g.rng.below(n as u64) as u32) } else { None };
             let kind = if g.rng.chance(0.8) { PollKind::Next } else { PollKind::Offset(0) };
+            if partition.is_none() && g.rng.chance(0.4) {
+                // act at once: the member's own offset requests without a partition id, right after its poll
+                // (skipped by the harness when the sender turns out not to be a member)
+                let who = Who::Group(group.clone());
+                if g.rng.chance(0.4) {
+                    g.pending.push_back(Op::StoreOffset { c, stream: stream.clone(), topic: topic.clone(), partition: None, who: who.clone(), offset: 0 });
+                }
+                g.pending.push_back(Op::GetOffset { c, stream: stream.clone(), topic: topic.clone(), partition: None, who: who.clone() });
+                if g.rng.chance(0.2) {
+                    g.pending.push_back(Op::DeleteOffset { c, stream: stream.clone(), topic: topic.clone(), partition: None, who });
+                }
+            }
             Op::Poll { c, stream, topic, partition, who: Who::Group(group), kind, count: *g.rng.pick(&[1, 2, 5, 10, 100]), auto_commit: g.rng.chance(0.8) }
         }
     }
